@@ -187,6 +187,11 @@ pub fn run(ctx: &mut Ctx) {
         let s: String = (0..len).map(|_| r.pick(&atoms).as_str()).collect();
         judge_input(ctx, &s, &sp, &cfg, "exotic-delimiters");
     }
+    // ---- a region beyond line 10 000 000 (eight-digit line numbers in the listings)
+    if shard == 1 % n {
+        let s = format!("{}<m name='feat-a'>\nx\n</m>\n", "\n".repeat(10_000_001));
+        judge_input(ctx, &s, &short_sp(), &cfg, "ten-million-lines");
+    }
     // ---- deep nesting
     if shard as usize % 4 == 0 {
         let depths: &[usize] = if quick { &[50, 400, 2000] } else { &[50, 400, 2000, 5000] };
